@@ -3,4 +3,5 @@ pub mod core;
 pub mod engines;
 pub mod prng;
 pub mod refmodel;
+pub mod sched;
 pub mod simstore;
